@@ -1,6 +1,1490 @@
+//! C02 / C03 — JWT credentials and presentations between issuers, holders, verifiers and a Byzantine network, over
+//! simulated time, stale ledger reads, key rotation, scope changes and revocation.
+
+use super::b64url_decode;
+use super::did_of_url;
+use super::doc_method;
+use super::draw_lag;
+use super::flip_bit;
+use super::is_did;
+use super::parse_compact;
+use super::sig_truth;
+use super::variant_names;
+use super::Clock;
+use super::Ledger;
+use super::Party;
 use crate::core::batch::Params;
-pub const RULE: &str = "";
-pub fn probes(_prop: &str, _tier: &str) -> Vec<String> {
-  Vec::new()
+use crate::core::ctx;
+use crate::core::exec::block_on;
+use crate::engines::docmodel::Scope;
+use crate::engines::stor::to_scope;
+use crate::engines::stor::AnyDoc;
+use identity_core::common::Object;
+use identity_core::common::Timestamp;
+use identity_core::common::Url;
+use identity_core::convert::FromJson;
+use identity_credential::credential::Credential;
+use identity_credential::credential::Jwt;
+use identity_credential::presentation::JwtPresentationOptions;
+use identity_credential::presentation::Presentation;
+use identity_credential::revocation::RevocationBitmap;
+use identity_credential::revocation::RevocationDocumentExt;
+use identity_credential::validator::FailFast;
+use identity_credential::validator::JwtCredentialValidationOptions;
+use identity_credential::validator::JwtCredentialValidator;
+use identity_credential::validator::JwtPresentationValidationOptions;
+use identity_credential::validator::JwtPresentationValidator;
+use identity_credential::validator::StatusCheck;
+use identity_credential::validator::SubjectHolderRelationship;
+use identity_did::DIDUrl;
+use identity_document::document::CoreDocument;
+use identity_document::verifiable::JwsVerificationOptions;
+use identity_eddsa_verifier::EdDSAJwsVerifier;
+use identity_storage::JwkDocumentExt;
+use identity_storage::JwsSignatureOptions;
+use serde_json::Value;
+use std::collections::BTreeMap;
+use std::collections::BTreeSet;
+
+pub const RULE: &str = "One run = 1-2 issuers, 1-2 holders, an adversary with its own DID and a verifier, each with its own \
+  skewed clock and storage, over 6-18 simulated steps: issue credentials (random optional fields, status entries, dates \
+  from the issuer's clock), rotate keys (same or new fragment), attach/detach relationships, revoke/unrevoke, publish \
+  (the ledger may answer with a stale version), build presentations (kid as full id or fragment, exp/nbf from the \
+  holder's clock, audience, custom claims), and validate tokens after network delivery with bit flips, truncation, \
+  adversary re-signing, kid swap, splicing and alg change, under validation options drawn per call (nonce, scope, \
+  method-id override, explicit or clock-default date bounds incl. the boundary second, status mode, subject-holder mode, \
+  fail-fast). The oracle recomputes every conjunct from ground truth. Non-trivial: at least one validation met a false \
+  conjunct, a stale document or a mutated token; distinct = distinct hashes of (fault/adversary moves, truth vectors).";
+
+pub fn probes(prop: &str, _tier: &str) -> Vec<String> {
+  let mut v: Vec<&str> = vec![
+    "fault.net.bitflip",
+    "fault.net.truncate",
+    "fault.adversary.resign_own_key",
+    "fault.adversary.kid_swap",
+    "fault.adversary.splice",
+    "fault.ledger.stale_read",
+    "fault.clock.boundary",
+    "probe.accepted",
+    "probe.rejected",
+    "probe.rotation",
+  ];
+  if prop == "C02" {
+    v.extend([
+      "false.nonce",
+      "false.document_mismatch",
+      "false.method_lookup",
+      "false.signature",
+      "false.identifier_mismatch",
+      "false.issuance_date",
+      "false.expiration_date",
+      "false.structure",
+      "false.subject_holder",
+      "false.status.revoked",
+      "false.status.invalid",
+      "false.status.service_lookup",
+      "probe.all_errors_multi",
+      "probe.method_id_override",
+      "cover:c02vec>=40",
+    ]);
+  } else {
+    v.extend([
+      "false.p.nonce",
+      "false.p.method_lookup",
+      "false.p.signature",
+      "false.p.document_mismatch",
+      "false.p.expiration_date",
+      "false.p.issuance_date",
+      "false.p.structure",
+      "probe.kid_fragment",
+      "probe.foreign_method_listed",
+      "cover:c03vec>=12",
+    ]);
+  }
+  v.into_iter().map(str::to_owned).collect()
 }
-pub fn run(_prop: &str, _params: &Params) {}
+
+#[derive(Clone)]
+struct CredToken {
+  s: String,
+  issuer: usize,
+  kid: String,
+  nonce: Option<String>,
+  /// the credential exactly as the issuer passed it to create_credential_jwt (serialised)
+  truth: Value,
+  custom: Option<Value>,
+  issued_index: Option<(String, u32)>,
+}
+
+#[derive(Clone)]
+struct PresToken {
+  s: String,
+  holder: usize,
+  nonce: Option<String>,
+  truth: Value,
+  aud: Option<String>,
+  exp: Option<i64>,
+  nbf: Option<i64>,
+  custom: Option<Value>,
+  /// hand-crafted claims signed by the holder: which defect they carry
+  crafted: Option<&'static str>,
+}
+
+struct World {
+  clock: Clock,
+  ledger: Ledger,
+  /// parties: issuers first, then holders, adversary last
+  parties: Vec<Party>,
+  n_issuers: usize,
+  n_holders: usize,
+  /// per DID: per published version: service id → revoked set
+  bitmaps: BTreeMap<String, Vec<BTreeMap<String, BTreeSet<u32>>>>,
+  /// current (unpublished) bitmap model per issuer index
+  cur_bitmaps: Vec<BTreeMap<String, BTreeSet<u32>>>,
+  creds: Vec<CredToken>,
+  press: Vec<PresToken>,
+  next_index: u32,
+  nontrivial: bool,
+}
+
+const REL_AUTH: Scope = Some(0);
+const REL_ASSERT: Scope = Some(1);
+
+fn ts(unix: i64) -> Timestamp {
+  Timestamp::from_unix(unix).expect("timestamp in range")
+}
+
+impl World {
+  fn adversary(&self) -> usize {
+    self.parties.len() - 1
+  }
+  fn holder(&self, i: usize) -> usize {
+    self.n_issuers + i
+  }
+  fn publish(&mut self, p: usize) {
+    let now = self.clock.now;
+    self.clock.enter(self.parties[p].skew);
+    if self.ledger.publish(&mut self.parties[p], now).is_ok() {
+      let did = self.parties[p].did.clone();
+      let m = if p < self.n_issuers {
+        self.cur_bitmaps[p].clone()
+      } else {
+        BTreeMap::new()
+      };
+      self.bitmaps.entry(did).or_default().push(m);
+    }
+  }
+  fn refs(&self) -> Vec<&Party> {
+    self.parties.iter().collect()
+  }
+}
+
+fn sign_credential(p: &Party, cred: &Credential, fragment: &str, opts: &JwsSignatureOptions, custom: Option<Object>) -> Result<String, String> {
+  let r = match &p.doc {
+    AnyDoc::Core(d) => block_on(d.create_credential_jwt(cred, &p.storage, fragment, opts, custom)),
+    AnyDoc::Iota(d) => block_on(d.create_credential_jwt(cred, &p.storage, fragment, opts, custom)),
+  };
+  r.map(|j| j.as_str().to_owned()).map_err(|e| e.to_string())
+}
+
+fn sign_raw(p: &Party, fragment: &str, payload: &[u8], opts: &JwsSignatureOptions) -> Result<String, String> {
+  let r = match &p.doc {
+    AnyDoc::Core(d) => block_on(d.create_jws(&p.storage, fragment, payload, opts)),
+    AnyDoc::Iota(d) => block_on(d.create_jws(&p.storage, fragment, payload, opts)),
+  };
+  r.map(|j| j.as_str().to_owned()).map_err(|e| e.to_string())
+}
+
+fn purge(p: &mut Party, fragment: &str) -> bool {
+  let id = DIDUrl::parse(format!("{}#{fragment}", p.did)).unwrap();
+  let st = &p.storage;
+  let r = match &mut p.doc {
+    AnyDoc::Core(d) => block_on(d.purge_method(st, &id)).is_ok(),
+    AnyDoc::Iota(d) => block_on(d.purge_method(st, &id)).is_ok(),
+  };
+  if r {
+    p.methods.retain(|m| m.0 != fragment);
+  }
+  r
+}
+
+// ---------------------------------------------------------------------------------------------------------------
+// Issuance
+// ---------------------------------------------------------------------------------------------------------------
+
+fn issue(w: &mut World, step: usize) {
+  let i = ctx::choose(w.n_issuers);
+  let h = w.holder(ctx::choose(w.n_holders));
+  let holder_did = w.parties[h].did.clone();
+  let now_i = w.clock.enter(w.parties[i].skew);
+  let p = &w.parties[i];
+  // signing method: any method of the issuer
+  if p.methods.is_empty() {
+    return;
+  }
+  let (frag, _scope) = p.methods[ctx::choose(p.methods.len())].clone();
+  let issuance = now_i - [0i64, 1, 60, 3600][ctx::choose(4)] + if ctx::chance(1, 10) { 120 } else { 0 };
+  let expiry: Option<i64> = match ctx::choose(4) {
+    0 => None,
+    1 => Some(now_i + 30 + ctx::choose(60) as i64),
+    2 => Some(now_i + 3600),
+    _ => Some(now_i + 1 + ctx::choose(5) as i64),
+  };
+  let mut c = serde_json::json!({
+    "@context": "https://www.w3.org/2018/credentials/v1",
+    "type": ["VerifiableCredential", "SimCredential"],
+    "issuer": p.did,
+    "issuanceDate": ts(issuance).to_rfc3339(),
+    "credentialSubject": {"id": holder_did, "level": step},
+  });
+  let o = c.as_object_mut().unwrap();
+  if ctx::choose(3) != 0 {
+    o.insert("id".into(), format!("https://cred.example/{step}").into());
+  }
+  if let Some(e) = expiry {
+    o.insert("expirationDate".into(), ts(e).to_rfc3339().into());
+  }
+  if ctx::chance(1, 12) {
+    // structurally defective: lacks the base type
+    o.insert("type".into(), serde_json::json!(["SimCredential"]));
+  }
+  if ctx::chance(1, 6) {
+    o.insert("issuer".into(), serde_json::json!({"id": p.did, "name": "Sim Issuer"}));
+  }
+  if ctx::chance(1, 4) {
+    o.insert("nonTransferable".into(), true.into());
+  }
+  if ctx::chance(1, 5) {
+    o.insert("credentialSubject".into(), serde_json::json!({"id": "did:sim:somebodyelse", "level": step}));
+  }
+  if ctx::chance(1, 6) {
+    o.insert("termsOfUse".into(), serde_json::json!([{"type": "SimPolicy", "id": "https://policy.example/1"}]));
+  }
+  if ctx::chance(1, 6) {
+    o.insert("extraProperty".into(), serde_json::json!({"k": [1, 2, 3]}));
+  }
+  let mut issued_index = None;
+  let services: Vec<String> = w.cur_bitmaps[i].keys().cloned().collect();
+  match ctx::weighted(&[3, 5, 1, 1, 1]) {
+    0 => {}
+    1 if !services.is_empty() => {
+      let sid = services[ctx::choose(services.len())].clone();
+      let index = if ctx::choose(2) == 0 {
+        let v = w.next_index;
+        w.next_index += 1;
+        v
+      } else {
+        ctx::choose(w.next_index.max(1) as usize) as u32
+      };
+      let frag_s = sid.rsplit('#').next().unwrap();
+      let status_id = if ctx::choose(2) == 0 {
+        format!("{}?index={index}#{frag_s}", p.did)
+      } else {
+        sid.clone()
+      };
+      o.insert(
+        "credentialStatus".into(),
+        serde_json::json!({"id": status_id, "type": "RevocationBitmap2022", "revocationBitmapIndex": index.to_string()}),
+      );
+      issued_index = Some((sid, index));
+    }
+    2 => {
+      o.insert("credentialStatus".into(), serde_json::json!({"id": "https://status.example/7", "type": "SomeOtherStatus2030"}));
+    }
+    3 => {
+      // malformed bitmap status: index is not a number / query disagrees
+      let bad = if ctx::choose(2) == 0 {
+        serde_json::json!({"id": format!("{}#rev0", p.did), "type": "RevocationBitmap2022", "revocationBitmapIndex": "abc"})
+      } else {
+        serde_json::json!({"id": format!("{}?index=5#rev0", p.did), "type": "RevocationBitmap2022", "revocationBitmapIndex": "6"})
+      };
+      o.insert("credentialStatus".into(), bad);
+    }
+    4 => {
+      // points at a service that does not exist in the issuer document
+      o.insert(
+        "credentialStatus".into(),
+        serde_json::json!({"id": format!("{}#nosuchservice", p.did), "type": "RevocationBitmap2022", "revocationBitmapIndex": "3"}),
+      );
+    }
+    _ => {}
+  }
+  let Ok(cred) = Credential::<Object>::from_json_value(c) else { return };
+  let truth = serde_json::to_value(&cred).unwrap();
+  let mut opts = JwsSignatureOptions::default();
+  let nonce = if ctx::chance(1, 3) {
+    let n = format!("n{}", ctx::choose(1000));
+    opts = opts.nonce(n.clone());
+    Some(n)
+  } else {
+    None
+  };
+  let custom: Option<Object> = if ctx::chance(1, 4) {
+    let mut o = Object::new();
+    o.insert("simClaim".into(), Value::from(ctx::choose(100) as u64));
+    Some(o)
+  } else {
+    None
+  };
+  match sign_credential(p, &cred, &frag, &opts, custom.clone()) {
+    Ok(s) => {
+      let kid = format!("{}#{frag}", p.did);
+      ctx::trace(format!("step {step}: I{i} issues credential (kid #{frag}, nonce {nonce:?}, status {issued_index:?})"));
+      w.creds.push(CredToken {
+        s,
+        issuer: i,
+        kid,
+        nonce,
+        truth,
+        custom: custom.map(|o| serde_json::to_value(o).unwrap()),
+        issued_index,
+      });
+    }
+    Err(e) => ctx::trace(format!("step {step}: issuing failed: {e}")),
+  }
+}
+
+fn present(w: &mut World, step: usize) {
+  let hi = ctx::choose(w.n_holders);
+  let h = w.holder(hi);
+  let now_h = w.clock.enter(w.parties[h].skew);
+  let p = &w.parties[h];
+  if p.methods.is_empty() {
+    return;
+  }
+  let (frag, _) = p.methods[ctx::choose(p.methods.len())].clone();
+  let creds: Vec<String> = w
+    .creds
+    .iter()
+    .filter(|_| ctx::choose(2) == 0)
+    .take(3)
+    .map(|c| c.s.clone())
+    .collect();
+  let mut pj = serde_json::json!({
+    "@context": "https://www.w3.org/2018/credentials/v1",
+    "type": "VerifiablePresentation",
+    "verifiableCredential": creds,
+    "holder": p.did,
+  });
+  if ctx::choose(2) == 0 {
+    pj["id"] = format!("https://pres.example/{step}").into();
+  }
+  let Ok(pres) = Presentation::<Jwt>::from_json_value(pj) else { return };
+  let truth = serde_json::to_value(&pres).unwrap();
+  let exp: Option<i64> = match ctx::choose(4) {
+    0 => None,
+    1 => Some(now_h + 1 + ctx::choose(4) as i64),
+    2 => Some(now_h + 30),
+    _ => Some(now_h + 600),
+  };
+  let nbf: Option<i64> = match ctx::choose(4) {
+    0 => None,
+    1 => Some(now_h),
+    2 => Some(now_h - 30),
+    _ => Some(now_h + ctx::choose(5) as i64),
+  };
+  let aud = if ctx::choose(2) == 0 { Some("https://verifier.example/".to_owned()) } else { None };
+  let custom: Option<Object> = if ctx::chance(1, 3) {
+    let mut o = Object::new();
+    o.insert("purpose".into(), Value::from("login"));
+    Some(o)
+  } else {
+    None
+  };
+  let popts = JwtPresentationOptions {
+    expiration_date: exp.map(ts),
+    issuance_date: nbf.map(ts),
+    audience: aud.as_ref().map(|a| Url::parse(a).unwrap()),
+    custom_claims: custom.clone(),
+  };
+  let mut sopts = JwsSignatureOptions::default();
+  let nonce = if ctx::choose(3) != 0 {
+    let n = format!("challenge{}", ctx::choose(1000));
+    sopts = sopts.nonce(n.clone());
+    Some(n)
+  } else {
+    None
+  };
+  // kid as full id (default) or as a bare fragment
+  match ctx::choose(3) {
+    0 => {}
+    1 => {
+      sopts = sopts.kid(format!("#{frag}"));
+      ctx::stat("probe.kid_fragment");
+    }
+    _ => {
+      sopts = sopts.kid(frag.clone());
+      ctx::stat("probe.kid_fragment");
+    }
+  }
+  let r = match &p.doc {
+    AnyDoc::Core(d) => block_on(d.create_presentation_jwt(&pres, &p.storage, &frag, &sopts, &popts)),
+    AnyDoc::Iota(d) => block_on(d.create_presentation_jwt(&pres, &p.storage, &frag, &sopts, &popts)),
+  };
+  if let Ok(j) = r {
+    ctx::trace(format!("step {step}: H{hi} presents ({} credentials, kid #{frag}, nonce {nonce:?}, exp {exp:?}, nbf {nbf:?})", creds.len()));
+    w.press.push(PresToken {
+      s: j.as_str().to_owned(),
+      holder: hi,
+      nonce,
+      truth,
+      aud,
+      exp,
+      nbf,
+      custom: custom.map(|o| serde_json::to_value(o).unwrap()),
+      crafted: None,
+    });
+  }
+}
+
+/// The holder signs hand-made presentation claims that carry one defect (duplicated values disagreeing, numeric date
+/// out of range, issuer that is not a DID).
+fn present_crafted(w: &mut World, step: usize) {
+  let hi = ctx::choose(w.n_holders);
+  let h = w.holder(hi);
+  w.clock.enter(w.parties[h].skew);
+  let p = &w.parties[h];
+  if p.methods.is_empty() {
+    return;
+  }
+  let (frag, _) = p.methods[ctx::choose(p.methods.len())].clone();
+  let kind = ["holder_mismatch", "id_mismatch", "exp_out_of_range", "iss_not_did"][ctx::choose(4)];
+  let mut claims = serde_json::json!({
+    "iss": p.did,
+    "vp": {"@context": "https://www.w3.org/2018/credentials/v1", "type": "VerifiablePresentation", "verifiableCredential": []},
+    "crafted": step,
+  });
+  match kind {
+    "holder_mismatch" => claims["vp"]["holder"] = "did:sim:someoneelse".into(),
+    "id_mismatch" => {
+      claims["jti"] = "https://pres.example/a".into();
+      claims["vp"]["id"] = "https://pres.example/b".into();
+    }
+    "exp_out_of_range" => claims["exp"] = Value::from(1_000_000_000_000_000i64),
+    _ => claims["iss"] = "https://holder.example/".into(),
+  }
+  let mut sopts = JwsSignatureOptions::default();
+  let nonce = if ctx::choose(2) == 0 {
+    let n = format!("challenge{}", ctx::choose(1000));
+    sopts = sopts.nonce(n.clone());
+    Some(n)
+  } else {
+    None
+  };
+  if let Ok(s) = sign_raw(p, &frag, claims.to_string().as_bytes(), &sopts) {
+    ctx::trace(format!("step {step}: H{hi} signs crafted presentation claims ({kind})"));
+    w.press.push(PresToken {
+      s,
+      holder: hi,
+      nonce,
+      truth: Value::Null,
+      aud: None,
+      exp: None,
+      nbf: None,
+      custom: None,
+      crafted: Some(kind),
+    });
+  }
+}
+
+// ---------------------------------------------------------------------------------------------------------------
+// Issuer / holder document changes
+// ---------------------------------------------------------------------------------------------------------------
+
+fn change_document(w: &mut World, step: usize, who: usize) {
+  w.clock.enter(w.parties[who].skew);
+  let is_issuer = who < w.n_issuers;
+  match ctx::choose(if is_issuer { 5 } else { 3 }) {
+    0 => {
+      // rotate: purge a method and generate a new one under the SAME fragment (old tokens keep their kid)
+      if let Some((frag, scope)) = w.parties[who].methods.first().cloned() {
+        if purge(&mut w.parties[who], &frag) {
+          let _ = w.parties[who].gen_method(&frag, scope);
+          ctx::stat("probe.rotation");
+          ctx::trace(format!("step {step}: party {who} rotates key under fragment #{frag}"));
+        }
+      }
+    }
+    1 => {
+      let n = w.parties[who].methods.len();
+      let scope = if is_issuer { REL_ASSERT } else { REL_AUTH };
+      let _ = w.parties[who].gen_method(&format!("k{step}x{n}"), if ctx::choose(2) == 0 { scope } else { None });
+      ctx::trace(format!("step {step}: party {who} adds a method"));
+    }
+    2 => {
+      // attach / detach a relationship of a general-purpose method (scope membership changes)
+      let general: Vec<String> = w.parties[who].methods.iter().filter(|m| m.1.is_none()).map(|m| m.0.clone()).collect();
+      if let Some(f) = general.first() {
+        let rel = [
+          identity_verification::MethodRelationship::Authentication,
+          identity_verification::MethodRelationship::AssertionMethod,
+        ][ctx::choose(2)];
+        let attach = ctx::choose(2) == 0;
+        match &mut w.parties[who].doc {
+          AnyDoc::Core(d) => {
+            let _ = if attach { d.attach_method_relationship(f.as_str(), rel) } else { d.detach_method_relationship(f.as_str(), rel) };
+          }
+          AnyDoc::Iota(d) => {
+            let _ = if attach { d.attach_method_relationship(f.as_str(), rel) } else { d.detach_method_relationship(f.as_str(), rel) };
+          }
+        }
+        ctx::trace(format!("step {step}: party {who} {} #{f} {rel:?}", if attach { "attaches" } else { "detaches" }));
+      }
+    }
+    _ => {
+      // revoke / unrevoke
+      let services: Vec<String> = w.cur_bitmaps[who].keys().cloned().collect();
+      if services.is_empty() {
+        return;
+      }
+      let sid = services[ctx::choose(services.len())].clone();
+      let n = 1 + ctx::choose(3);
+      let batch: Vec<u32> = (0..n).map(|_| ctx::choose(w.next_index.max(2) as usize) as u32).collect();
+      let unrevoke = ctx::choose(4) == 0;
+      let r = match (&mut w.parties[who].doc, unrevoke) {
+        (AnyDoc::Core(d), false) => d.revoke_credentials(sid.as_str(), &batch).is_ok(),
+        (AnyDoc::Core(d), true) => d.unrevoke_credentials(sid.as_str(), &batch).is_ok(),
+        (AnyDoc::Iota(d), false) => d.revoke_credentials(sid.as_str(), &batch).is_ok(),
+        (AnyDoc::Iota(d), true) => d.unrevoke_credentials(sid.as_str(), &batch).is_ok(),
+      };
+      if r {
+        let m = w.cur_bitmaps[who].get_mut(&sid).unwrap();
+        for b in &batch {
+          if unrevoke {
+            m.remove(b);
+          } else {
+            m.insert(*b);
+          }
+        }
+        ctx::trace(format!("step {step}: I{who} {} {batch:?} in {sid}", if unrevoke { "unrevokes" } else { "revokes" }));
+      }
+    }
+  }
+  // publish now, or leave the change unpublished for a while (the ledger then lags behind the owner)
+  if ctx::choose(4) != 0 {
+    w.publish(who);
+  }
+}
+
+// ---------------------------------------------------------------------------------------------------------------
+// Network / adversary
+// ---------------------------------------------------------------------------------------------------------------
+
+#[derive(Debug, Clone, PartialEq)]
+enum Move {
+  Intact,
+  BitFlip,
+  Truncate,
+  ResignOwnKidVictim,
+  ResignOwnKidOwn,
+  KidSwap,
+  Splice,
+  AlgChange,
+}
+
+fn b64(bytes: &[u8]) -> String {
+  identity_jose::jwu::encode_b64(bytes)
+}
+
+/// Applies a network fault or adversary move to a compact token. `other` is another honest token (for splicing).
+fn deliver(w: &World, token: &str, other: Option<&str>, victim_kid: &str) -> (String, Move) {
+  let mv = match ctx::weighted(&[12, 3, 1, 2, 1, 2, 1, 1]) {
+    0 => Move::Intact,
+    1 => Move::BitFlip,
+    2 => Move::Truncate,
+    3 => Move::ResignOwnKidVictim,
+    4 => Move::ResignOwnKidOwn,
+    5 => Move::KidSwap,
+    6 => Move::Splice,
+    _ => Move::AlgChange,
+  };
+  let parts: Vec<&str> = token.split('.').collect();
+  if parts.len() != 3 {
+    return (token.to_owned(), Move::Intact);
+  }
+  let adv = &w.parties[w.adversary()];
+  let out = match mv {
+    Move::Intact => token.to_owned(),
+    Move::BitFlip => {
+      ctx::stat("fault.net.bitflip");
+      let (s, pos, bit) = flip_bit(token);
+      ctx::sched("bitflip", (pos * 8 + bit as usize) as u64);
+      s
+    }
+    Move::Truncate => {
+      ctx::stat("fault.net.truncate");
+      let cut = ctx::choose(token.len());
+      ctx::sched("trunc", cut as u64);
+      token[..cut].to_owned()
+    }
+    Move::ResignOwnKidVictim | Move::ResignOwnKidOwn => {
+      ctx::stat("fault.adversary.resign_own_key");
+      ctx::sched("resign", 1);
+      // the adversary signs the captured payload with its own key, claiming the victim's kid or its own
+      let payload = b64url_decode(parts[1]).unwrap_or_default();
+      let mut opts = JwsSignatureOptions::default();
+      if mv == Move::ResignOwnKidVictim {
+        opts = opts.kid(victim_kid.to_owned());
+      }
+      if let Some(n) = parse_compact(token).and_then(|p| p.header.get("nonce").and_then(|n| n.as_str().map(str::to_owned))) {
+        opts = opts.nonce(n);
+      }
+      sign_raw(adv, "adv", &payload, &opts).unwrap_or_else(|_| token.to_owned())
+    }
+    Move::KidSwap => {
+      ctx::stat("fault.adversary.kid_swap");
+      ctx::sched("kidswap", 1);
+      match parse_compact(token) {
+        Some(mut p) => {
+          let new_kid = if ctx::choose(2) == 0 {
+            format!("{}#adv", adv.did)
+          } else {
+            format!("{}#other", did_of_url(victim_kid))
+          };
+          p.header["kid"] = new_kid.into();
+          format!("{}.{}.{}", b64(p.header.to_string().as_bytes()), parts[1], parts[2])
+        }
+        None => token.to_owned(),
+      }
+    }
+    Move::Splice => {
+      ctx::stat("fault.adversary.splice");
+      ctx::sched("splice", 1);
+      match other {
+        Some(o) => {
+          let op: Vec<&str> = o.split('.').collect();
+          if op.len() == 3 {
+            format!("{}.{}.{}", parts[0], op[1], parts[2])
+          } else {
+            token.to_owned()
+          }
+        }
+        None => token.to_owned(),
+      }
+    }
+    Move::AlgChange => {
+      ctx::stat("fault.adversary.alg_change");
+      ctx::sched("alg", 1);
+      match parse_compact(token) {
+        Some(mut p) => {
+          p.header["alg"] = ["ES256", "none", "HS256"][ctx::choose(3)].into();
+          format!("{}.{}.{}", b64(p.header.to_string().as_bytes()), parts[1], parts[2])
+        }
+        None => token.to_owned(),
+      }
+    }
+  };
+  let mv = if out == token { Move::Intact } else { mv };
+  (out, mv)
+}
+
+// ---------------------------------------------------------------------------------------------------------------
+// Resolution of a document for a validation
+// ---------------------------------------------------------------------------------------------------------------
+
+struct Supplied {
+  doc: CoreDocument,
+  json: Value,
+  did: String,
+  version: usize,
+}
+
+fn resolve(w: &mut World, party: usize) -> Option<Supplied> {
+  let did = w.parties[party].did.clone();
+  let versions = w.ledger.latest(&did)?;
+  let lag = draw_lag(versions, 2);
+  if lag > 0 {
+    w.nontrivial = true;
+  }
+  let (v, r) = w.ledger.resolve(&did, lag)?;
+  let doc = r.ok()?;
+  let json = serde_json::to_value(&doc).unwrap();
+  // the resolved document must be the published one (ground truth)
+  let truth = &w.ledger.entries[&did][v - 1].truth;
+  if &json != truth {
+    ctx::stat("observation.resolved_differs_from_published");
+  }
+  Some(Supplied { doc, json, did, version: v })
+}
+
+// ---------------------------------------------------------------------------------------------------------------
+// C02: credential validation
+// ---------------------------------------------------------------------------------------------------------------
+
+fn scope_choices() -> Option<Scope> {
+  match ctx::weighted(&[5, 2, 1, 1]) {
+    0 => None,
+    1 => Some(REL_ASSERT),
+    2 => Some(REL_AUTH),
+    _ => Some(None),
+  }
+}
+
+fn validate_credential(w: &mut World, step: usize) {
+  if w.creds.is_empty() {
+    return;
+  }
+  let t = w.creds[ctx::choose(w.creds.len())].clone();
+  let other = w.creds[ctx::choose(w.creds.len())].s.clone();
+  let (delivered, mv) = deliver(w, &t.s, Some(&other), &t.kid);
+  // which issuer document the verifier supplies
+  let supply_party = match ctx::weighted(&[10, 1, 1]) {
+    0 => t.issuer,
+    1 => (t.issuer + 1) % w.n_issuers.max(1),
+    _ => w.adversary(),
+  };
+  let Some(sup) = resolve(w, supply_party) else { return };
+  // ---- options ----
+  let mut vopts = JwsVerificationOptions::default();
+  let opt_nonce: Option<String> = match ctx::weighted(&[6, 1, 1]) {
+    0 => t.nonce.clone(),
+    1 => Some("othernonce".to_owned()),
+    _ => None,
+  };
+  if let Some(n) = &opt_nonce {
+    vopts = vopts.nonce(n.clone());
+  }
+  let scope = scope_choices();
+  if let Some(s) = scope {
+    vopts = vopts.method_scope(to_scope(s));
+  }
+  let method_override: Option<String> = match ctx::weighted(&[8, 1, 1, 1]) {
+    0 => None,
+    1 => Some(t.kid.clone()),
+    2 => {
+      // another method of the supplied document
+      let m = crate::engines::docmodel::ModelDoc::from_json(&sup.json);
+      let ids = m.methods(None);
+      ids.into_iter().find(|i| *i != t.kid)
+    }
+    _ => Some(format!("{}#adv", w.parties[w.adversary()].did)),
+  };
+  if let Some(m) = &method_override {
+    ctx::stat("probe.method_id_override");
+    vopts = vopts.method_id(DIDUrl::parse(m).unwrap());
+  }
+  let issuance = t.truth.get("issuanceDate").and_then(|v| v.as_str()).and_then(|s| Timestamp::parse(s).ok()).map(|t| t.to_unix());
+  let expiry = t.truth.get("expirationDate").and_then(|v| v.as_str()).and_then(|s| Timestamp::parse(s).ok()).map(|t| t.to_unix());
+  // verifier clock: usually global time + skew; sometimes stepped exactly onto a boundary second
+  let verifier_skew = ctx::range(-3, 3);
+  let mut v_now = w.clock.now + verifier_skew;
+  if ctx::chance(1, 5) {
+    ctx::stat("fault.clock.boundary");
+    let base = if ctx::choose(2) == 0 { expiry.or(issuance) } else { issuance };
+    if let Some(b) = base {
+      v_now = b + ctx::range(-1, 1);
+    }
+  }
+  ctx::set_clock(v_now);
+  let _ = ctx::take_clock_reads();
+  let mut opts = JwtCredentialValidationOptions::default();
+  let explicit_latest_issuance: Option<i64> = if ctx::chance(1, 3) { issuance.map(|i| i + ctx::range(-1, 1)) } else { None };
+  let explicit_earliest_expiry: Option<i64> = if ctx::chance(1, 3) {
+    Some(expiry.unwrap_or(v_now) + ctx::range(-1, 1))
+  } else {
+    None
+  };
+  if let Some(b) = explicit_latest_issuance {
+    opts = opts.latest_issuance_date(ts(b));
+  }
+  if let Some(b) = explicit_earliest_expiry {
+    opts = opts.earliest_expiry_date(ts(b));
+  }
+  let status_mode = [StatusCheck::Strict, StatusCheck::SkipUnsupported, StatusCheck::SkipAll][ctx::weighted(&[4, 1, 1])];
+  opts = opts.status_check(status_mode);
+  let sh: Option<(String, SubjectHolderRelationship)> = if ctx::chance(1, 3) {
+    let holder_url = if ctx::choose(3) == 0 {
+      "did:sim:nottheholder".to_owned()
+    } else {
+      w.parties[w.holder(0)].did.clone()
+    };
+    let rel = [
+      SubjectHolderRelationship::AlwaysSubject,
+      SubjectHolderRelationship::SubjectOnNonTransferable,
+      SubjectHolderRelationship::Any,
+    ][ctx::choose(3)];
+    Some((holder_url, rel))
+  } else {
+    None
+  };
+  if let Some((u, r)) = &sh {
+    opts = opts.subject_holder_relationship(Url::parse(u).unwrap(), *r);
+  }
+  opts = opts.verification_options(vopts);
+  let fail_fast = if ctx::choose(2) == 0 { FailFast::FirstError } else { FailFast::AllErrors };
+
+  // ---- the call under test ----
+  let validator = JwtCredentialValidator::with_signature_verifier(EdDSAJwsVerifier::default());
+  let res = ctx::catch(|| validator.validate::<_, Object>(&Jwt::new(delivered.clone()), &sup.doc, &opts, fail_fast));
+  let reads = ctx::take_clock_reads();
+  let res = match res {
+    Ok(r) => r,
+    Err(p) => {
+      ctx::violation(
+        "C02",
+        "C02.error_not_crash",
+        format!("validate/panic/{mv:?}"),
+        format!("JwtCredentialValidator::validate panicked on a {mv:?} token: {p}"),
+      );
+      return;
+    }
+  };
+  if reads.iter().any(|r| *r != v_now) {
+    ctx::stat("observation.foreign_clock_read");
+  }
+
+  // ---- oracle: recompute every conjunct from ground truth ----
+  let mutated = matches!(mv, Move::BitFlip | Move::Truncate);
+  let parsed = parse_compact(&delivered);
+  let mut pre: Option<&'static str> = None; // first false conjunct among 1-8 (variant name)
+  let mut pre_label = "";
+  let mut claims: Option<Value> = None;
+  let mut method_did = String::new();
+  match &parsed {
+    None => {
+      pre = Some("JwsDecodingError");
+      pre_label = "decode";
+    }
+    Some(p) => {
+      let header_nonce = p.header.get("nonce").and_then(|n| n.as_str());
+      let kid = p.header.get("kid").and_then(|k| k.as_str());
+      let method_id: Option<String> = match &method_override {
+        Some(m) => Some(m.clone()),
+        None => kid.filter(|k| DIDUrl::parse(k).is_ok()).map(str::to_owned),
+      };
+      if header_nonce != opt_nonce.as_deref() {
+        pre = Some("JwsDecodingError");
+        pre_label = "nonce";
+        ctx::stat("false.nonce");
+      } else if method_id.is_none() {
+        pre = Some("MethodDataLookupError");
+        pre_label = "kid";
+      } else {
+        let mid = method_id.unwrap();
+        method_did = did_of_url(&mid).to_owned();
+        if method_did != sup.did {
+          pre = Some("DocumentMismatch");
+          pre_label = "document_mismatch";
+          ctx::stat("false.document_mismatch");
+        } else {
+          match doc_method(&sup.json, &mid, scope) {
+            None => {
+              pre = Some("MethodDataLookupError");
+              pre_label = "method_lookup";
+              ctx::stat("false.method_lookup");
+            }
+            Some((_, jwk)) if !jwk.is_object() => {
+              pre = Some("MethodDataLookupError");
+              pre_label = "method_lookup";
+            }
+            Some((_, jwk)) => {
+              let x = jwk.get("x").and_then(|x| x.as_str()).unwrap_or("");
+              let alg = p.header.get("alg").and_then(|a| a.as_str());
+              let key_alg = jwk.get("alg").and_then(|a| a.as_str());
+              let signing_input = format!("{}.{}", p.header_b64, p.payload_b64);
+              let sig_ok = alg == Some("EdDSA")
+                && (key_alg.is_none() || key_alg == alg)
+                && sig_truth(&w.refs(), signing_input.as_bytes(), &p.sig, x);
+              if !sig_ok {
+                pre = Some("Signature");
+                pre_label = "signature";
+                ctx::stat("false.signature");
+              } else {
+                claims = p.payload.clone();
+                match &claims {
+                  None => {
+                    pre = Some("CredentialStructure");
+                    pre_label = "claims";
+                  }
+                  Some(c) => {
+                    let iss = c.get("iss").map(|i| match i {
+                      Value::String(s) => s.clone(),
+                      o => o.get("id").and_then(|i| i.as_str()).unwrap_or("").to_owned(),
+                    });
+                    match iss {
+                      Some(iss) if is_did(&iss) => {
+                        if iss != method_did {
+                          pre = Some("IdentifierMismatch");
+                          pre_label = "identifier_mismatch";
+                          ctx::stat("false.identifier_mismatch");
+                        }
+                      }
+                      _ => {
+                        pre = Some("SignerUrl");
+                        pre_label = "issuer_not_did";
+                      }
+                    }
+                  }
+                }
+              }
+            }
+          }
+        }
+      }
+    }
+  }
+  // chained units (only meaningful when 1-8 hold; the signed payload is then an honest one: find its ground truth)
+  let mut units: Vec<&'static str> = Vec::new();
+  let mut unit_labels: Vec<&'static str> = Vec::new();
+  let mut truth_cred: Option<&CredToken> = None;
+  if pre.is_none() {
+    // the token verified against a logged signing event, so its payload is byte-identical to an honest token's
+    let pl = parsed.as_ref().map(|p| p.payload_b64.clone()).unwrap_or_default();
+    truth_cred = w.creds.iter().find(|c| c.s.split('.').nth(1) == Some(pl.as_str()));
+    if let Some(tc) = truth_cred {
+      let c = &tc.truth;
+      let iss_d = c.get("issuanceDate").and_then(|v| v.as_str()).and_then(|s| Timestamp::parse(s).ok()).map(|t| t.to_unix()).unwrap_or(0);
+      let exp_d = c.get("expirationDate").and_then(|v| v.as_str()).and_then(|s| Timestamp::parse(s).ok()).map(|t| t.to_unix());
+      let latest = explicit_latest_issuance.unwrap_or(v_now);
+      let earliest = explicit_earliest_expiry.unwrap_or(v_now);
+      if iss_d > latest {
+        units.push("IssuanceDate");
+        unit_labels.push("issuance_date");
+        ctx::stat("false.issuance_date");
+      }
+      if let Some(e) = exp_d {
+        if e < earliest {
+          units.push("ExpirationDate");
+          unit_labels.push("expiration_date");
+          ctx::stat("false.expiration_date");
+        }
+      }
+      let types: Vec<&str> = match c.get("type") {
+        Some(Value::Array(a)) => a.iter().filter_map(|v| v.as_str()).collect(),
+        Some(Value::String(s)) => vec![s.as_str()],
+        _ => vec![],
+      };
+      if !types.contains(&"VerifiableCredential") {
+        units.push("CredentialStructure");
+        unit_labels.push("structure");
+        ctx::stat("false.structure");
+      }
+      if let Some((holder_url, rel)) = &sh {
+        let subj = c.get("credentialSubject").and_then(|s| s.get("id")).and_then(|i| i.as_str());
+        let matches = subj == Some(holder_url.as_str());
+        let non_transferable = c.get("nonTransferable").and_then(|v| v.as_bool()).unwrap_or(false);
+        let ok = match rel {
+          SubjectHolderRelationship::AlwaysSubject => matches,
+          SubjectHolderRelationship::SubjectOnNonTransferable => matches || !non_transferable,
+          SubjectHolderRelationship::Any => true,
+        };
+        if !ok {
+          units.push("SubjectHolderRelationship");
+          unit_labels.push("subject_holder");
+          ctx::stat("false.subject_holder");
+        }
+      }
+      if status_mode != StatusCheck::SkipAll {
+        if let Some(st) = c.get("credentialStatus") {
+          let ty = st.get("type").and_then(|t| t.as_str()).unwrap_or("");
+          if ty != "RevocationBitmap2022" {
+            if status_mode == StatusCheck::Strict {
+              units.push("InvalidStatus");
+              unit_labels.push("status.invalid");
+              ctx::stat("false.status.invalid");
+            }
+          } else {
+            let idx_s = st.get("revocationBitmapIndex").and_then(|v| v.as_str());
+            let idx: Option<u32> = idx_s.and_then(|s| s.parse().ok());
+            let sid_full = st.get("id").and_then(|v| v.as_str()).unwrap_or("");
+            // the index query, if present, must agree
+            let q_idx: Option<Option<u32>> = sid_full.split_once('?').map(|(_, rest)| {
+              rest.split('#').next().unwrap_or("").split('&').find_map(|kv| kv.strip_prefix("index=")).and_then(|v| v.parse().ok())
+            });
+            let malformed = idx.is_none() || matches!(q_idx, Some(q) if q != idx);
+            if malformed {
+              units.push("InvalidStatus");
+              unit_labels.push("status.invalid");
+              ctx::stat("false.status.invalid");
+            } else {
+              let idx = idx.unwrap();
+              let sid = format!("{}#{}", did_of_url(sid_full), sid_full.rsplit('#').next().unwrap_or(""));
+              let version_model = w.bitmaps.get(&sup.did).and_then(|v| v.get(sup.version - 1));
+              let service_in_doc = sup
+                .json
+                .get("service")
+                .and_then(|s| s.as_array())
+                .map(|a| a.iter().any(|s| s.get("id").and_then(|i| i.as_str()) == Some(sid.as_str())))
+                .unwrap_or(false);
+              if !service_in_doc {
+                units.push("ServiceLookupError");
+                unit_labels.push("status.service_lookup");
+                ctx::stat("false.status.service_lookup");
+              } else if version_model.and_then(|m| m.get(&sid)).map(|s| s.contains(&idx)).unwrap_or(false) {
+                units.push("Revoked");
+                unit_labels.push("status.revoked");
+                ctx::stat("false.status.revoked");
+              }
+            }
+          }
+        }
+      }
+    }
+  }
+  let truth_vector = format!(
+    "{}|{}",
+    if pre.is_some() { pre_label } else { "-" },
+    unit_labels.join("+")
+  );
+  ctx::cover(format!("c02vec:{truth_vector}"));
+  ctx::sched("tv", crate::core::tape::Fnv::of(truth_vector.as_bytes()));
+  if mv != Move::Intact || pre.is_some() || !units.is_empty() {
+    w.nontrivial = true;
+  }
+  let all_true = pre.is_none() && units.is_empty() && truth_cred.is_some();
+  let got: Vec<&'static str> = match &res {
+    Ok(_) => vec![],
+    Err(e) => variant_names(&e.validation_errors),
+  };
+  ctx::trace(format!(
+    "step {step}: validate cred of I{} ({mv:?}) against {} v{} scope={:?} override={} ff={fail_fast:?} -> {} ; expected false conjuncts [{truth_vector}]",
+    t.issuer,
+    sup.did.chars().take(24).collect::<String>(),
+    sup.version,
+    scope.map(crate::engines::stor::scope_name),
+    method_override.is_some(),
+    if res.is_ok() { "Ok".to_owned() } else { format!("Err{got:?}") },
+  ));
+  match &res {
+    Ok(decoded) => {
+      ctx::stat("probe.accepted");
+      if !all_true {
+        ctx::violation(
+          "C02",
+          "C02.accept_only_if_all_conditions",
+          format!("accepted-despite/{truth_vector}/{mv:?}"),
+          format!("credential accepted although these conditions are false: [{truth_vector}] (token {mv:?}, document v{} of {})", sup.version, sup.did),
+        );
+      } else if let Some(tc) = truth_cred {
+        // fidelity: the credential returned is the one that was signed
+        let got_cred = serde_json::to_value(&decoded.credential).unwrap();
+        if got_cred != tc.truth {
+          ctx::violation(
+            "C02",
+            "C02.returns_signed_credential",
+            "returned-credential-differs",
+            format!("returned credential {got_cred} differs from the signed one {}", tc.truth),
+          );
+        }
+        // "no custom claims" is returned as an empty object: not a difference in what was signed
+        let got_custom = decoded.custom_claims.as_ref().filter(|o| !o.is_empty()).map(|o| serde_json::to_value(o).unwrap());
+        if got_custom != tc.custom {
+          ctx::violation(
+            "C02",
+            "C02.returns_signed_credential",
+            "returned-custom-claims-differ",
+            format!("returned custom claims {got_custom:?} differ from the signed ones {:?}", tc.custom),
+          );
+        }
+      }
+    }
+    Err(_) => {
+      ctx::stat("probe.rejected");
+      if all_true {
+        // completeness is not part of the statement: observation only
+        ctx::stat("observation.rejected_although_all_conditions_hold");
+      }
+      // error identification
+      if let Some(want) = pre {
+        let ok = if mutated {
+          // a bit flip / truncation may change header semantics in ways the harness model does not replicate;
+          // any pre-signature or signature error identifies it
+          got.len() == 1 && ["JwsDecodingError", "MethodDataLookupError", "DocumentMismatch", "Signature"].contains(&got[0])
+        } else {
+          got == vec![want]
+        };
+        if !ok {
+          ctx::violation(
+            "C02",
+            "C02.error_identifies_condition",
+            format!("want={want}/got={}/{mv:?}", got.join("+")),
+            format!("first false condition is {pre_label} (expects {want}) but errors are {got:?}"),
+          );
+        }
+      } else if !units.is_empty() {
+        let ok = match fail_fast {
+          FailFast::AllErrors => {
+            let mut a = got.clone();
+            a.sort();
+            let mut b = units.clone();
+            b.sort();
+            if units.len() > 1 {
+              ctx::stat("probe.all_errors_multi");
+            }
+            a == b
+          }
+          FailFast::FirstError => got.len() == 1 && units.contains(&got[0]),
+        };
+        if !ok {
+          ctx::violation(
+            "C02",
+            "C02.error_identifies_condition",
+            format!("units/want={}/got={}/{fail_fast:?}", units.join("+"), got.join("+")),
+            format!("false conditions {unit_labels:?} but errors are {got:?} ({fail_fast:?})"),
+          );
+        }
+      }
+    }
+  }
+}
+
+// ---------------------------------------------------------------------------------------------------------------
+// C03: presentation validation
+// ---------------------------------------------------------------------------------------------------------------
+
+fn validate_presentation(w: &mut World, step: usize) {
+  if w.press.is_empty() {
+    return;
+  }
+  let t = w.press[ctx::choose(w.press.len())].clone();
+  let other = w.press[ctx::choose(w.press.len())].s.clone();
+  let holder_party = w.holder(t.holder);
+  let victim_kid = parse_compact(&t.s)
+    .and_then(|p| p.header.get("kid").and_then(|k| k.as_str().map(str::to_owned)))
+    .unwrap_or_default();
+  let victim_kid_full = if victim_kid.starts_with("did:") {
+    victim_kid.clone()
+  } else {
+    format!("{}#{}", w.parties[holder_party].did, victim_kid.trim_start_matches('#'))
+  };
+  let (delivered, mv) = deliver(w, &t.s, Some(&other), &victim_kid_full);
+  let supply_party = match ctx::weighted(&[10, 1, 1]) {
+    0 => holder_party,
+    1 => w.holder((t.holder + 1) % w.n_holders),
+    _ => w.adversary(),
+  };
+  let Some(sup) = resolve(w, supply_party) else { return };
+  let mut vopts = JwsVerificationOptions::default();
+  let opt_nonce: Option<String> = match ctx::weighted(&[6, 1, 1]) {
+    0 => t.nonce.clone(),
+    1 => Some("replayed-elsewhere".to_owned()),
+    _ => None,
+  };
+  if let Some(n) = &opt_nonce {
+    vopts = vopts.nonce(n.clone());
+  }
+  let scope = match ctx::weighted(&[5, 3, 1]) {
+    0 => None,
+    1 => Some(REL_AUTH),
+    _ => Some(REL_ASSERT),
+  };
+  if let Some(s) = scope {
+    vopts = vopts.method_scope(to_scope(s));
+  }
+  let method_override: Option<String> = match ctx::weighted(&[8, 1, 1]) {
+    0 => None,
+    1 => Some(victim_kid_full.clone()),
+    _ => {
+      let m = crate::engines::docmodel::ModelDoc::from_json(&sup.json);
+      m.methods(None).into_iter().find(|i| *i != victim_kid_full)
+    }
+  };
+  if let Some(m) = &method_override {
+    vopts = vopts.method_id(DIDUrl::parse(m).unwrap());
+  }
+  let verifier_skew = ctx::range(-3, 3);
+  let mut v_now = w.clock.now + verifier_skew;
+  if ctx::chance(1, 4) {
+    ctx::stat("fault.clock.boundary");
+    if let Some(b) = if ctx::choose(2) == 0 { t.exp } else { t.nbf } {
+      v_now = b + ctx::range(-1, 1);
+    }
+  }
+  ctx::set_clock(v_now);
+  let _ = ctx::take_clock_reads();
+  let mut opts = JwtPresentationValidationOptions::default().presentation_verifier_options(vopts);
+  let explicit_earliest: Option<i64> = if ctx::chance(1, 4) { Some(t.exp.unwrap_or(v_now) + ctx::range(-1, 1)) } else { None };
+  let explicit_latest: Option<i64> = if ctx::chance(1, 4) { Some(t.nbf.unwrap_or(v_now) + ctx::range(-1, 1)) } else { None };
+  if let Some(b) = explicit_earliest {
+    opts = opts.earliest_expiry_date(ts(b));
+  }
+  if let Some(b) = explicit_latest {
+    opts = opts.latest_issuance_date(ts(b));
+  }
+  let validator = JwtPresentationValidator::with_signature_verifier(EdDSAJwsVerifier::default());
+  let res = ctx::catch(|| validator.validate::<_, Jwt, Object>(&Jwt::new(delivered.clone()), &sup.doc, &opts));
+  let res = match res {
+    Ok(r) => r,
+    Err(p) => {
+      ctx::violation(
+        "C03",
+        "C03.error_not_crash",
+        format!("validate/panic/{mv:?}"),
+        format!("JwtPresentationValidator::validate panicked on a {mv:?} token: {p}"),
+      );
+      return;
+    }
+  };
+  // ---- oracle ----
+  let mutated = matches!(mv, Move::BitFlip | Move::Truncate);
+  let parsed = parse_compact(&delivered);
+  let mut want: Option<&'static str> = None;
+  let mut label = "-";
+  let mut truth: Option<&PresToken> = None;
+  match &parsed {
+    None => {
+      want = Some("PresentationJwsError");
+      label = "decode";
+    }
+    Some(p) => {
+      let header_nonce = p.header.get("nonce").and_then(|n| n.as_str());
+      let kid = p.header.get("kid").and_then(|k| k.as_str());
+      let query: Option<String> = method_override.clone().or(kid.map(str::to_owned));
+      if header_nonce != opt_nonce.as_deref() {
+        want = Some("PresentationJwsError");
+        label = "nonce";
+        ctx::stat("false.p.nonce");
+      } else {
+        match query.as_deref().and_then(|q| doc_method(&sup.json, q, scope)) {
+          None => {
+            want = Some("PresentationJwsError");
+            label = "method_lookup";
+            ctx::stat("false.p.method_lookup");
+          }
+          Some((_, jwk)) => {
+            let x = jwk.get("x").and_then(|x| x.as_str()).unwrap_or("");
+            let alg = p.header.get("alg").and_then(|a| a.as_str());
+            let key_alg = jwk.get("alg").and_then(|a| a.as_str());
+            let signing_input = format!("{}.{}", p.header_b64, p.payload_b64);
+            let ok = jwk.is_object()
+              && alg == Some("EdDSA")
+              && (key_alg.is_none() || key_alg == alg)
+              && sig_truth(&w.refs(), signing_input.as_bytes(), &p.sig, x);
+            if !ok {
+              want = Some("PresentationJwsError");
+              label = "signature";
+              ctx::stat("false.p.signature");
+            } else {
+              truth = w.press.iter().find(|c| c.s.split('.').nth(1) == Some(p.payload_b64.as_str()));
+              match (&p.payload, truth) {
+                (Some(c), Some(tp)) => {
+                  let iss = c.get("iss").and_then(|i| i.as_str()).unwrap_or("");
+                  if !is_did(iss) {
+                    want = Some("SignerUrl");
+                    label = "issuer_not_did";
+                    ctx::stat("false.p.issuer_not_did");
+                  } else if iss != sup.did {
+                    want = Some("DocumentMismatch");
+                    label = "document_mismatch";
+                    ctx::stat("false.p.document_mismatch");
+                  } else {
+                    let earliest = explicit_earliest.unwrap_or(v_now);
+                    let latest = explicit_latest.unwrap_or(v_now);
+                    if tp.exp.map(|e| e < earliest).unwrap_or(false) {
+                      want = Some("ExpirationDate");
+                      label = "expiration_date";
+                      ctx::stat("false.p.expiration_date");
+                    } else if tp.nbf.map(|n| n > latest).unwrap_or(false) {
+                      want = Some("IssuanceDate");
+                      label = "issuance_date";
+                      ctx::stat("false.p.issuance_date");
+                    } else if tp.crafted.is_some() {
+                      // disagreeing duplicated values / numeric date outside years 0000-9999
+                      want = Some("PresentationStructure");
+                      label = "structure";
+                      ctx::stat("false.p.structure");
+                    }
+                  }
+                }
+                _ => {
+                  // a payload that is not one of the holders' presentations (e.g. a credential payload re-signed)
+                  want = Some("PresentationStructure");
+                  label = "structure";
+                  ctx::stat("false.p.structure");
+                }
+              }
+            }
+          }
+        }
+      }
+    }
+  }
+  ctx::cover(format!("c03vec:{label}/{}", if mv == Move::Intact { "intact" } else { "tampered" }));
+  ctx::sched("tv3", crate::core::tape::Fnv::of(label.as_bytes()));
+  if mv != Move::Intact || want.is_some() {
+    w.nontrivial = true;
+  }
+  let got: Vec<&'static str> = match &res {
+    Ok(_) => vec![],
+    Err(e) => variant_names(&e.presentation_validation_errors),
+  };
+  ctx::trace(format!(
+    "step {step}: validate presentation of H{} ({mv:?}) against {} v{} scope={:?} -> {} ; expected first false condition [{label}]",
+    t.holder,
+    sup.did.chars().take(24).collect::<String>(),
+    sup.version,
+    scope.map(crate::engines::stor::scope_name),
+    if res.is_ok() { "Ok".to_owned() } else { format!("Err{got:?}") },
+  ));
+  match &res {
+    Ok(decoded) => {
+      ctx::stat("probe.accepted");
+      match (want, truth) {
+        (Some(_), _) | (None, None) => ctx::violation(
+          "C03",
+          "C03.accept_only_if_bound_to_holder",
+          format!("accepted-despite/{label}/{mv:?}"),
+          format!("presentation accepted although condition [{label}] is false (token {mv:?}, holder document v{} of {})", sup.version, sup.did),
+        ),
+        (None, Some(tp)) => {
+          let got_p = serde_json::to_value(&decoded.presentation).unwrap();
+          let got_aud = decoded.aud.as_ref().map(|u| u.to_string());
+          let got_exp = decoded.expiration_date.map(|t| t.to_unix());
+          let got_nbf = decoded.issuance_date.map(|t| t.to_unix());
+          let got_custom = decoded.custom_claims.as_ref().filter(|o| !o.is_empty()).map(|o| serde_json::to_value(o).unwrap());
+          if got_p != tp.truth || got_aud != tp.aud || got_exp != tp.exp || got_nbf != tp.nbf || got_custom != tp.custom {
+            ctx::violation(
+              "C03",
+              "C03.returns_signed_presentation",
+              "returned-values-differ",
+              format!(
+                "returned presentation/aud/exp/nbf/custom ({got_p}, {got_aud:?}, {got_exp:?}, {got_nbf:?}, {got_custom:?}) differ from the signed ones ({}, {:?}, {:?}, {:?}, {:?})",
+                tp.truth, tp.aud, tp.exp, tp.nbf, tp.custom
+              ),
+            );
+          }
+        }
+      }
+    }
+    Err(_) => {
+      ctx::stat("probe.rejected");
+      match want {
+        None => ctx::stat("observation.rejected_although_all_conditions_hold"),
+        Some(wv) => {
+          let ok = if mutated {
+            got.len() == 1 && ["PresentationJwsError", "PresentationStructure"].contains(&got[0])
+          } else {
+            got == vec![wv]
+          };
+          if !ok {
+            ctx::violation(
+              "C03",
+              "C03.error_identifies_condition",
+              format!("want={wv}/got={}/{mv:?}", got.join("+")),
+              format!("first false condition is {label} (expects {wv}) but errors are {got:?}"),
+            );
+          }
+        }
+      }
+    }
+  }
+}
+
+pub fn run(prop: &str, _params: &Params) {
+  let mut w = World {
+    clock: Clock { now: ctx::BASE_TIME },
+    ledger: Ledger::default(),
+    parties: Vec::new(),
+    n_issuers: 1 + ctx::choose(2),
+    n_holders: 1 + ctx::choose(2),
+    bitmaps: BTreeMap::new(),
+    cur_bitmaps: Vec::new(),
+    creds: Vec::new(),
+    press: Vec::new(),
+    next_index: 0,
+    nontrivial: false,
+  };
+  // ---- setup (fault-free) ----
+  for i in 0..w.n_issuers {
+    let mut p = Party::new("issuer", ctx::choose(2) == 0, i);
+    p.skew = ctx::range(-5, 5);
+    w.clock.enter(p.skew);
+    let _ = p.gen_method("sign", REL_ASSERT);
+    if ctx::choose(2) == 0 {
+      let _ = p.gen_method("gen", None);
+      if let (AnyDoc::Core(d), true) = (&mut p.doc, ctx::choose(2) == 0) {
+        let _ = d.attach_method_relationship("gen", identity_verification::MethodRelationship::AssertionMethod);
+      }
+    }
+    w.parties.push(p);
+    w.cur_bitmaps.push(BTreeMap::new());
+  }
+  for i in 0..w.n_holders {
+    let mut p = Party::new("holder", ctx::choose(2) == 0, i);
+    p.skew = ctx::range(-5, 5);
+    w.clock.enter(p.skew);
+    let _ = p.gen_method("auth", REL_AUTH);
+    if ctx::choose(2) == 0 {
+      let _ = p.gen_method("alt", if ctx::choose(2) == 0 { REL_ASSERT } else { None });
+    }
+    w.parties.push(p);
+  }
+  {
+    let mut a = Party::new("adversary", false, 0);
+    w.clock.enter(0);
+    let _ = a.gen_method("adv", None);
+    let _ = a.gen_method("other", None);
+    w.parties.push(a);
+  }
+  let n = w.parties.len();
+  for p in 0..n {
+    w.publish(p); // first publication assigns real DIDs
+  }
+  // revocation services under the real DIDs
+  for i in 0..w.n_issuers {
+    let k = 1 + ctx::choose(2);
+    for s in 0..k {
+      let sid = format!("{}#rev{s}", w.parties[i].did);
+      if let Ok(svc) = RevocationBitmap::new().to_service(DIDUrl::parse(&sid).unwrap()) {
+        let ok = match &mut w.parties[i].doc {
+          AnyDoc::Core(d) => d.insert_service(svc).is_ok(),
+          AnyDoc::Iota(d) => d.insert_service(svc).is_ok(),
+        };
+        if ok {
+          w.cur_bitmaps[i].insert(sid, BTreeSet::new());
+        }
+      }
+    }
+  }
+  // C03: a holder document may list a method that belongs to another DID (allowed) — the adversary's
+  if prop == "C03" && ctx::choose(2) == 0 {
+    let adv = w.adversary();
+    let adv_method = w.parties[adv].doc.core().resolve_method("adv", None).cloned();
+    if let Some(m) = adv_method {
+      let h = w.holder(0);
+      let ok = match &mut w.parties[h].doc {
+        AnyDoc::Core(d) => d.insert_method(m, to_scope(REL_AUTH)).is_ok(),
+        AnyDoc::Iota(d) => d.insert_method(m, to_scope(REL_AUTH)).is_ok(),
+      };
+      if ok {
+        ctx::stat("probe.foreign_method_listed");
+      }
+    }
+  }
+  for p in 0..n {
+    w.publish(p);
+  }
+
+  // ---- chaos ----
+  let steps = 6 + ctx::choose(13);
+  for step in 0..steps {
+    w.clock.advance(90);
+    let weights: [u32; 5] = if prop == "C02" { [5, 0, 3, 8, 0] } else { [2, 5, 2, 0, 8] };
+    match ctx::weighted(&weights) {
+      0 => issue(&mut w, step),
+      1 => {
+        if prop == "C03" && ctx::chance(1, 5) {
+          present_crafted(&mut w, step)
+        } else {
+          present(&mut w, step)
+        }
+      }
+      2 => {
+        let who = if prop == "C02" {
+          ctx::choose(w.n_issuers)
+        } else {
+          w.holder(ctx::choose(w.n_holders))
+        };
+        change_document(&mut w, step, who);
+      }
+      3 => validate_credential(&mut w, step),
+      _ => validate_presentation(&mut w, step),
+    }
+    if ctx::has_violation() {
+      break;
+    }
+  }
+  if w.nontrivial {
+    ctx::mark_nontrivial();
+  }
+}
